@@ -40,6 +40,17 @@ def concretise(c, rnd):
         pos = 'cxy="10 6"' if (c["anchor"] == "c" and rnd.random() < 0.5) else \
             ('xy="10 6"' + ("" if c["anchor"] == "tl" else f' xy-loc="{c["anchor"]}"'))
         return f'<svg><{k} id="s" {pos} wh="2 4" {d}/></svg>'
+    if f == "linepts":
+        r1 = geom.ref_element(rnd.choice(["rect", "ellipse", "box"]), c["ref"], "r")
+        r2 = geom.ref_element(rnd.choice(["rect", "ellipse", "line"]), c["ref2"], "q")
+        d = "" if (c["dx"] == 0 and c["dy"] == 0) else f' {q(c["dx"])} {q(c["dy"])}'
+        if c["shape"] == "line":
+            subj = f'<line id="s" xy1="#r@{c["l1"]}" xy2="#q@{c["l2"]}{d}"/>'
+        else:
+            subj = f'<polyline id="s" points="#r@{c["l1"]} #q@{c["l2"]}{d}"/>'
+        els = [r1, r2, subj]
+        rnd.shuffle(els)
+        return "<svg>" + "".join(els) + "</svg>"
     if f == "reusepos":
         tk = c["tkind"]
         if tk == "circle" and c["w"] != c["h"]:
@@ -135,6 +146,19 @@ def rel_check(c, resp):
     el = geom.find_by_id(resp["out"], "s")
     if el is None:
         return (f"rel:{form}:missing", "subject not in output")
+    if form == "linepts":
+        cs = c["case"]
+        want = [cs["p1"][0] / 4, cs["p1"][1] / 4, cs["p2"][0] / 4, cs["p2"][1] / 4]
+        if el.name == "line":
+            got = [vlib.fnum(el.attrs.get(k, "")) for k in ("x1", "y1", "x2", "y2")]
+        else:
+            got = [vlib.fnum(t) for t in el.attrs.get("points", "").replace(",", " ").split()]
+        if len(got) != 4 or any(g is None or abs(g - w) > 0.0015 for g, w in zip(got, want)):
+            return ("rel:linepts:geometry", f"{el.name} drawn as {dict(el.attrs)}; the referenced locations are {want}")
+        bad = [k for k in el.attrs if k in ("xy1", "xy2", "xy")]
+        if bad:
+            return ("rel:linepts:residue", f"attributes left behind: {bad}")
+        return None
     if form == "reusepos":
         bb = instance_bbox(el, c["case"])
         if bb is None or not geom.box_close(bb, c["case"]["exp"]):
